@@ -21,7 +21,10 @@ R4  lifecycle of the pump task (close -> stop first, stop cancels/awaits/clears,
 R5  every framework path that ends a session passes a completed ``WebSocket.close()`` - the only caller of
     ``stop()`` - and is not guarded by ``closed``/``ready`` (= C17's ``r3_session_paths``, shared).
 R6  ``receive()`` concludes "pump ended, no more messages" only inside the await-free section after the wait and
-    only from "the registered future was not notified" or an explicit emptiness test of the queue.
+    only from "the registered future was not notified" or an explicit emptiness test of the queue.  "Not notified" is
+    read from ``waiter.done()`` and from the sets returned by the wait (``done, pending = await asyncio.wait({...})``:
+    ``waiter not in done`` / ``waiter in pending``); membership of the pump TASK in either set establishes nothing
+    (both futures can be done when the receiver wakes; seeded s6-c18-3); any other use of the sets is an unknown idiom.
 
 ``disconnect_flag_prompt`` (flag raised before the pump's next suspension) is registered under C17 as its R6.
 
@@ -886,7 +889,8 @@ def r6_end_of_stream(run):
     the next suspension point.  So, inside the await-free section that follows a wait, either of
       * the registered future is not done (nobody notified => nothing was appended while waiting), or
       * an explicit emptiness test of the queue
-    establishes "no message is buffered".  The completion of the pump task establishes nothing: the pump may have
+    establishes "no message is buffered" (the first also spelled ``waiter not in done`` / ``waiter in pending`` over the
+    sets the wait returned).  The completion of the pump task establishes nothing: the pump may have
     enqueued messages, woken the waiter, pulled the disconnect and returned in one step."""
     p = run.project
     br = _br(run)
@@ -910,22 +914,60 @@ def r6_end_of_stream(run):
             if isinstance(t, ast.Name):
                 wl.add(t.id)
 
-    def notified(e) -> Optional[bool]:
-        """polarity True: 'the registered future is done' (the pump announced a message)"""
-        if isinstance(e, ast.Call) and isinstance(e.func, ast.Attribute) and e.func.attr == 'done' and not e.args and not e.keywords \
-                and isinstance(e.func.value, ast.Name) and e.func.value.id in wl:
-            return True
-        return None
-
-    empty_edges = br.edges_implying(cfg, br.nonempty, False) + br.edges_implying(cfg, notified, False)
     susp = _susp(cfg)
-    # results of the wait bound to locals (done/pending sets): tests on them are an idiom this rule does not know
+    # the outcome of the wait bound to locals.  ``done, pending = await asyncio.wait(<literal collection>, ...)`` is read: in the
+    # await-free section after the wait ``X in done`` says what ``X.done()`` says and ``X in pending`` the opposite (asyncio.wait
+    # sorts the futures it was given by done() when the waiting task resumes).  Any other binding or use of the outcome is an
+    # idiom this rule does not know.
     wait_locals: Set[str] = set()
+    done_locals: Set[str] = set()
+    pending_locals: Set[str] = set()
+    waited: Dict[str, List[ast.AST]] = {}
     for sn in susp:
         a = cfg.node(sn).ast
         if cfg.node(sn).kind == 'stmt' and isinstance(a, (ast.Assign, ast.AnnAssign)):
-            for t in (a.targets if isinstance(a, ast.Assign) else [a.target]):
+            tgs = a.targets if isinstance(a, ast.Assign) else [a.target]
+            for t in tgs:
                 wait_locals.update(x.id for x in ast.walk(t) if isinstance(x, ast.Name))
+            v = strip_await(a.value) if a.value is not None else None
+            t = tgs[0]
+            if len(tgs) == 1 and isinstance(t, ast.Tuple) and len(t.elts) == 2 and all(isinstance(x, ast.Name) for x in t.elts) \
+                    and isinstance(v, ast.Call) and p.resolve_expr(f.module, v.func, f) == 'asyncio.wait' and v.args \
+                    and isinstance(v.args[0], (ast.List, ast.Set, ast.Tuple)) and not any(isinstance(x, ast.Starred) for x in v.args[0].elts) \
+                    and all(len(local_defs(f, x.id)) == 1 for x in t.elts):
+                done_locals.add(t.elts[0].id)
+                pending_locals.add(t.elts[1].id)
+                for x in t.elts:
+                    waited[x.id] = list(v.args[0].elts)
+
+    def membership(e):
+        """(subject, polarity) for ``subject [not] in <done|pending set of the wait>``; polarity True: 'subject is done'"""
+        if isinstance(e, ast.Compare) and len(e.ops) == 1 and isinstance(e.ops[0], (ast.In, ast.NotIn)) and isinstance(e.comparators[0], ast.Name) \
+                and e.comparators[0].id in (done_locals | pending_locals):
+            s = e.comparators[0].id
+            pol = isinstance(e.ops[0], ast.In)
+            if s in pending_locals:
+                pol = not pol
+            subj = e.left
+            if not any(ast.dump(subj) == ast.dump(w) for w in waited[s]):
+                raise UnknownIdiom('%s: %s tests a future that was not handed to the wait' % (f.qual, short(e)))
+            return subj, pol
+        return None
+
+    def is_task(e) -> bool:
+        return br.ref(f, e, br.task)
+
+    def notified(e) -> Optional[bool]:
+        """polarity True: 'the registered future is done' (the pump announced a message); False: 'it is not done'"""
+        if isinstance(e, ast.Call) and isinstance(e.func, ast.Attribute) and e.func.attr == 'done' and not e.args and not e.keywords \
+                and isinstance(e.func.value, ast.Name) and e.func.value.id in wl:
+            return True
+        m = membership(e)
+        if m is not None and isinstance(m[0], ast.Name) and m[0].id in wl:
+            return m[1]
+        return None
+
+    empty_edges = br.edges_implying(cfg, br.nonempty, False) + br.edges_implying(cfg, notified, False)
 
     def unknown_test(nid) -> Optional[str]:
         n = cfg.node(nid)
@@ -940,7 +982,17 @@ def r6_end_of_stream(run):
                     if d is not None:
                         names |= {x.id for x in walk_self(d) if isinstance(x, ast.Name)}
         if names & wait_locals:
-            return short(cond)
+            # read: membership of the registered future (decided by `notified`) or of the pump task (establishes nothing
+            # about the queue: the branch is simply not an "empty" edge) in the done/pending set; anything else is not read
+            understood = set()
+            for x in walk_self(cond):
+                m = membership(x)
+                if m is not None and ((isinstance(m[0], ast.Name) and m[0].id in wl) or is_task(m[0])):
+                    understood.add(id(x.comparators[0]))
+                    understood.update(id(y) for y in ast.walk(m[0]))
+            direct = [x for x in walk_self(cond) if isinstance(x, ast.Name) and x.id in wait_locals]
+            if not direct or any(id(x) not in understood for x in direct):
+                return short(cond)
         # completion of some other future/task-like local (not the pump task attribute): not understood
         for x in walk_self(cond):
             if isinstance(x, ast.Call) and isinstance(x.func, ast.Attribute) and x.func.attr in ('done', 'cancelled', 'result', 'exception') \
@@ -948,6 +1000,7 @@ def r6_end_of_stream(run):
                 return short(cond)
         if names & wl:
             recognised = {id(x.func.value) for x in walk_self(cond) if isinstance(x, ast.Call) and notified(x)}
+            recognised |= {id(membership(x)[0]) for x in walk_self(cond) if isinstance(x, ast.Compare) and membership(x) is not None}
             stray = [x for x in walk_self(cond) if isinstance(x, ast.Name) and x.id in wl and id(x) not in recognised]
             indirect = not any(isinstance(x, ast.Name) and x.id in wl for x in walk_self(cond))
             if stray or indirect:
